@@ -1,0 +1,39 @@
+//go:build verif
+
+// Contracts for the gowp verifier (/verif). Comment-only file: compiled only with -tags verif and
+// contributes no code either way.
+
+package route
+
+//@ func (r *Route) ReceiverAmt
+//@   props C19
+//@   requires r != nil
+//@   requires forallq(k, 0, len(r.Hops), r.Hops[k] != nil)
+//@   ensures result == ite(len(r.Hops) == 0, 0, r.Hops[len(r.Hops) - 1].AmtToForward)
+//@   nopanic
+//@   modifies nothing
+//@
+//@ func (r *Route) TotalFees
+//@   props C19
+//@   requires r != nil
+//@   requires forallq(k, 0, len(r.Hops), r.Hops[k] != nil)
+//@   ensures result == ite(len(r.Hops) == 0, 0, wrap(r.TotalAmount - r.Hops[len(r.Hops) - 1].AmtToForward, 64))
+//@   modifies nothing
+//@
+//@ func (r *Route) HopFee
+//@   props C19
+//@   requires r != nil && 0 <= hopIndex && hopIndex < len(r.Hops)
+//@   requires forallq(k, 0, len(r.Hops), r.Hops[k] != nil)
+//@   let inc = ite(hopIndex == 0, r.TotalAmount, r.Hops[hopIndex - 1].AmtToForward)
+//@   let out = r.Hops[hopIndex].AmtToForward
+//@   ensures inc != 0 && out != 0 ==> result == wrap(inc - out, 64)
+//@   ensures inc == 0 ==> result == 0
+//@   ensures inc != 0 && out == 0 ==> result == wrap(inc - r.Hops[len(r.Hops) - 1].AmtToForward, 64)
+//@   nopanic
+//@   modifies nothing
+//@
+//@ func NewRouteFromHops
+//@   props C19
+//@   ensures result1 == nil ==> len(hops) > 0 && result0 != nil && result0.Hops == hops && result0.TotalAmount == amtToSend &&
+//@           result0.TotalTimeLock == timeLock
+//@   ensures len(hops) > 0 ==> result1 == nil
